@@ -12,6 +12,7 @@ import (
 	"encoding/json"
 	"fmt"
 	"math"
+	"os"
 	"reflect"
 	"strings"
 )
@@ -246,3 +247,7 @@ func vJSONNoDup(a []byte) bool {
 	}
 	return walk()
 }
+
+func vInSet(b byte, set string) bool { return strings.IndexByte(set, b) >= 0 }
+
+func vGetwd() string { d, _ := os.Getwd(); return d }
